@@ -8,6 +8,8 @@ layouts, loading paths)."""
 
 from __future__ import annotations
 
+from fractions import Fraction
+
 import itertools
 import os
 import random
@@ -51,7 +53,8 @@ class T:
         self.pk, self.pm = r("pk"), r("pm")
         self.si, self.sf, self.sm, self.sa, self.oa = r("si"), r("sf"), r("sm"), r("sa"), r("oa")
         self.n0, self.kc, self.sr = r("n0"), r("kc"), r("sr")
-        for v in (self.pk, self.pm, self.si, self.sf, self.sm, self.sa, self.oa, self.n0, self.kc, self.sr):
+        self.sg = r("sg")
+        for v in (self.pk, self.pm, self.si, self.sf, self.sm, self.sa, self.oa, self.n0, self.kc, self.sr, self.sg):
             eng.assume(v > 0)
         eng.assume(Not(Eq(self.sr, self.sf)))
 
@@ -83,6 +86,10 @@ class T:
             "@end",
             "@system S using G",
             "    ft",
+            "@end",
+            f"acc = {L(self.sg)} * m / s ** 2",
+            "@system W using G",
+            "    acc : s",
             "@end",
             f"@context(n={L(self.n0, paren=False)}) cx = CX",
             f"    [length] -> [time]: value * {L(self.kc)} * n * s / m",
@@ -143,6 +150,11 @@ class T:
         P(ureg.default_system == "S", f"{tag}:default-system")
         f, bu = ureg.get_base_units("inch")
         P(str(bu) == "ft" and Eq(f, 1 / self.sf), f"{tag}:system-base-units")
+        # a system with a replacement rule 'new : old' where old enters new with exponent -2:
+        # acc = sg m / s**2  =>  s = acc**(-1/2) * m**(1/2) (times a number)
+        _f, bu = ureg.get_base_units("s", system="W")
+        P({k: Fraction(str(v.c if hasattr(v, "c") else v)) for k, v in bu._units.items()} == {"acc": Fraction(-1, 2), "m": Fraction(1, 2)}, f"{tag}:system-replacement-rule-units")
+        P(dict(ureg.get_dimensionality(bu)) == dict(ureg.get_dimensionality("s")), f"{tag}:system-replacement-rule-dimension")
         # compatible-unit listings: all lengths without restriction, the system's members by default
         listing = {str(u) for u in ureg.get_compatible_units("m", "root")}
         if tag == "define" and listing != {"m", "inch", "ft", "hand", "yard"}:
